@@ -32,7 +32,7 @@ for p in $props; do
   ./check $p quick > $out/check_$p.log 2>&1; rc=$?
   nv=$(grep -c '^VIOLATION' $out/check_$p.log)
   tier=quick
-  if [ $rc -eq 0 ]; then ./check $p thorough > $out/check_${p}_thorough.log 2>&1; rc=$?; nv=$(grep -c '^VIOLATION' $out/check_${p}_thorough.log); tier=thorough; fi
+  if [ $rc -eq 0 ] && [ -z "${QUICK_ONLY:-}" ]; then ./check $p thorough > $out/check_${p}_thorough.log 2>&1; rc=$?; nv=$(grep -c '^VIOLATION' $out/check_${p}_thorough.log); tier=thorough; fi
   echo "check $p ($tier): exit=$rc violations=$nv"; res="$res $p:$tier:$rc:$nv"
 done
 git -C /repo checkout -- . ; git -C /repo status --short
